@@ -468,7 +468,7 @@ class GraphColoringRegisterAllocator:
         """
         # This check was m.degree == self.K - 1
         if m in self.spill_worklist and self.is_colorable(m):
-            self.enable_moves({m} | m.adjecent)
+            self.enable_moves([m] + list(m.adjecent))
             self.spill_worklist.remove(m)
             if self.is_move_related(m):
                 self.freeze_worklist.add(m)
